@@ -535,8 +535,11 @@ int bn_gen_prime_factor(bn_t a, bn_t b, size_t abits, size_t bbits) {
 		bn_new(u);
 
 		bn_gen_prime(a, abits);
+		/* The smallest cofactor for which b has the requested length. */
 		bn_set_dig(t, 1);
-		bn_lsh(t, t, bbits - bn_bits(a) - 1);
+		bn_lsh(t, t, bbits - 1);
+		bn_div(t, t, a);
+		bn_add_dig(t, t, 1);
 		do {
 			bn_rand(u, RLC_POS, bbits - bn_bits(a) - 1);
 			bn_add(u, u, t);
